@@ -83,7 +83,7 @@ def generate(rng, tier):
     # container-valued elements: lists / tuples (nested) and sets of scalars inside an object vector
     # an empty container against the small numbers (an empty container hashes to its bare starting value)
     for empty in ({"t": []}, {"l": []}, {"s": []}):
-        for x in (0, 1, 2, 3, 4, 5, 6, True, 1.0, 3.0, -1):
+        for x in (0, 1, 2, 3, 4, 5, 6, True, 1.0, 3.0, -1, None):
             yield {"fam": "container", "elems": ["k", empty], "i": 1, "new": x}
             yield {"fam": "container", "elems": ["k", x], "i": 1, "new": empty}
     # sets whose members are only partially ordered (frozensets: `<` is the subset relation, so sorting the members is not canonical)
